@@ -120,7 +120,7 @@ def main():
     try:
         run({"node": "unspecified"}, ("enum", "Expr::Unspecified", []), [])
         run({"node": "literal"}, ("enum", "Expr::Literal", [("abs", "val")]), [])
-        for name in ("x", "long_name", "@result", "@x"):
+        for name in ("x", "long_name", "_private", "_", "X9", "@result", "@x"):
             run({"node": "ident", "name": name}, ("enum", "Expr::Ident", [S(name)]),
                 [] if name.startswith("@") else [("report", "variable", name)])
         for n in range(0, DEPTH + 1):
